@@ -244,6 +244,8 @@ for _pid in ("C04", "C07", "C08", "C11"):
     PROPS[_pid]["rule"] += " cfg2 (schedules): two overlapping SetConfigThreadSafe calls with different settings (+ optionally a reader); once both returned, what Config() reports must be what is enforced (override flags, timeout, both limits), observed through IsOpen and a lone probe call."
     if TB_SCHED[0] not in PROPS[_pid]["trusted_base"]:
         PROPS[_pid]["trusted_base"] = PROPS[_pid]["trusted_base"] + TB_SCHED
+PROPS["C08"]["components"].append(CircuitSeq("C08", ["started"], 150, 4000, suite="gowrap"))
+PROPS["C08"]["rule"] += " gowrap: Go on nil / zero-value / Disabled circuits (also with an already cancelled context) must still run the function."
 PROPS["C08"]["components"].append(OverrideMeta(1500, 40000))
 PROPS["C08"]["rule"] += " override-meta (metamorphic, real code only): histories with an episode setcfg fo=1|dis=1, calls, setcfg fo=0|dis=0 (often over an open circuit whose sleep window has elapsed) are re-run with the episode replaced by the passage of its clock readings; every later op must answer identically ('clearing an override resumes the underlying state')."
 PROPS["C10"]["components"].append(Sched("gauge", 2000, 100000, label="sched-gauge-panic", only="C10:"))
